@@ -27,9 +27,16 @@ THEOREMS = [
     "C11.success_no_tmp",
     "C11.early_tmp_gone_counterexample",
     "C11.create_table_second_statement_counterexample",
+    "C11.early_tmp_gone",
+    "C11.early_tmp_left_create_table_tail",
+    "C11.early_tmp_left_rolled_back",
+    "C11.fault_upto_drop_unchanged",
     "C11.early_tmp_gone_partial",
 ]
 PARTIAL = {
+    "C11.early_tmp_gone": "the full statement `C11.early_tmp_gone_statement` is false on the unchanged tree; `early_tmp_gone` proves it for every "
+    "early failure whose run does not have the shape of C11-F2 (ended in a later statement of create_table), of C11-F1 (scope rolls back "
+    "with pysqlite's implicit transaction open) and where the fault did not hit the clean-up DROP itself (single fault)",
     "C11.early_tmp_gone_partial": "full statement `C11.early_tmp_gone_statement` (after every failure at or before DROP of the original "
     "the temporary table is gone) fails on the unchanged tree (findings C11-F1, C11-F2); proved when the failing statement is "
     "CREATE TABLE itself, or when the enclosing scope commits instead of rolling back and the failure is not in a later "
